@@ -427,3 +427,69 @@ RECIPES += [
     ("C04", "neutral", [], F_, _SKB, "        bigmat = not 0 <= rows < self._rows4bigmat\n        wper = 1 if mtype & 1 else 2\n", "skipper: chained comparison for the bigmat test"),
     ("C04", "break", ["C04-R4"], F_, _SKB, "        bigmat = not 0 <= rows <= self._rows4bigmat\n        wper = 1 if mtype & 1 else 2\n", "skipper: chained comparison admits 65536 rows as nonbigmat"),
 ]
+
+_FB = ("            if nwords < cutoff:\n                Y = struct.unpack(numform % nwords, fp.read(bytesreal * nwords))\n            else:\n"
+       "                Y = np.fromfile(fp, numform2, nwords)\n")
+
+
+def _fb(nbytes):
+    return (f"            raw = fp.read({nbytes} * nwords)\n            if nwords < cutoff:\n                Y = struct.unpack(numform % nwords, raw)\n"
+            "            else:\n                Y = np.frombuffer(raw, numform2)\n")
+
+
+_NM = ("            if self._bit64:\n                name = fp.read(16).decode()\n            else:\n                name = fp.read(8).decode()\n"
+       "            name = self._check_name(name)\n")
+_BH = ('        name = (f"{name.upper():<8}").encode()\n        if bigmat:\n            # ~~ if rows < self._rows4bigmat:\n            rows = -rows\n'
+       '        f.write(struct.pack(endian + "5i8si", 24, cols, rows, form, mtype, name, 24))\n')
+
+
+def _bh(pad, closing):
+    return (f'        name = name.upper().{pad}(8).encode()\n        if bigmat:\n            # ~~ if rows < self._rows4bigmat:\n            rows = -rows\n'
+            '        mark = struct.pack(f"{endian}i", 24)\n'
+            f'        f.write(mark + struct.pack(f"{{endian}}4i8s", cols, rows, form, mtype, name) + {closing})\n')
+
+
+_WR = ('        if binary:\n            if sparse == "dense":\n                wrtfunc = self._write_binary\n            elif sparse == "bigmat":\n'
+       '                wrtfunc = self._write_binary_bigmat\n            elif sparse == "nonbigmat":\n                wrtfunc = self._write_binary_nonbigmat\n'
+       '            elif sparse != "auto":\n                raise ValueError("invalid sparse option")\n            if endian == "":\n'
+       '                endian = "="  # for backwards compatibility\n            with open(filename, "wb") as f:\n'
+       '                for name, matrix, form in zip(names, matrices, forms):\n                    if sparse == "auto":\n'
+       '                        if isinstance(matrix, tuple):\n                            wrtfunc = self._write_binary_bigmat\n                        else:\n'
+       '                            wrtfunc = self._write_binary\n                    wrtfunc(f, name, matrix, endian, form)\n        else:\n'
+       '            if sparse == "dense":\n                wrtfunc = self._write_ascii\n            elif sparse == "bigmat":\n                wrtfunc = self._write_ascii_bigmat\n'
+       '            elif sparse == "nonbigmat":\n                wrtfunc = self._write_ascii_nonbigmat\n            elif sparse != "auto":\n'
+       '                raise ValueError("invalid sparse option")\n            with open(filename, "w") as f:\n'
+       '                for name, matrix, form in zip(names, matrices, forms):\n                    if sparse == "auto":\n'
+       '                        if isinstance(matrix, tuple):\n                            wrtfunc = self._write_ascii_bigmat\n                        else:\n'
+       '                            wrtfunc = self._write_ascii\n                    wrtfunc(f, name, matrix, digits, form)\n')
+
+
+def _wr(ascii_nonbigmat):
+    return ('        binary = bool(binary)\n        writers = {\n            (True, "dense"): self._write_binary,\n            (True, "bigmat"): self._write_binary_bigmat,\n'
+            '            (True, "nonbigmat"): self._write_binary_nonbigmat,\n            (False, "dense"): self._write_ascii,\n'
+            f'            (False, "bigmat"): self._write_ascii_bigmat,\n            (False, "nonbigmat"): self.{ascii_nonbigmat},\n        }}\n'
+            '        if sparse != "auto" and (binary, sparse) not in writers:\n            raise ValueError("invalid sparse option")\n'
+            '        if binary and endian == "":\n            endian = "="  # for backwards compatibility\n        setting = endian if binary else digits\n'
+            '        with open(filename, "wb" if binary else "w") as f:\n            for name, matrix, form in zip(names, matrices, forms):\n'
+            '                if sparse == "auto":\n                    layout = "bigmat" if isinstance(matrix, tuple) else "dense"\n                else:\n'
+            '                    layout = sparse\n                writers[binary, layout](f, name, matrix, setting, form)\n')
+
+
+RECIPES += [
+    ("C04", "neutral", [], F_, _FB, _fb("bytesreal"),
+     "dense binary reader: one read for the column, np.frombuffer (dtype with the file's byte order) for large ones"),
+    ("C04", "break", ["C04-R3"], F_, _FB, _fb("4"), "dense binary reader: the column read with four bytes per value"),
+    ("C04", "neutral", [], F_, _NM, "            name = self._check_name(fp.read(16 if self._bit64 else 8).decode())\n", "binary loader: name read with a conditional size"),
+    ("C04", "break", ["C04-R2", "C04-R3"], F_, _NM, "            name = self._check_name(fp.read(8 if self._bit64 else 16).decode())\n",
+     "binary loader: conditional name size with its arms exchanged"),
+    ("C04", "neutral", [], F_, _BH, _bh("ljust", "mark"), "binary header: record marks packed on their own, name padded with ljust"),
+    ("C04", "break", ["C04-R2"], F_, _BH, _bh("rjust", "mark"), "binary header: name padded on the left"),
+    ("C04", "break", ["C04-R2", "C04-R3"], F_, _BH, _bh("ljust", 'struct.pack(f"{endian}i", 20)'), "binary header: closing record mark 20"),
+    ("C04", "neutral", [], F_, "        perline = 80 // numlen\n", "        perline = int(80 / numlen)\n", "_write_ascii_header: perline through int() of a true division"),
+    ("C04", "break", ["C04-R1", "C04-R2", "C04-R3"], F_, "        perline = 80 // numlen\n", "        perline = 80 / numlen\n",
+     "_write_ascii_header: perline a true quotient (announced as a float, not parsed back by int())"),
+    ("C04", "neutral", [], F_, '        numform = f"%{numlen}.{digits}E"\n', '        numform = "%" + str(numlen) + "." + str(digits) + "E"\n',
+     "_write_ascii_header: number format assembled from str() pieces"),
+    ("C04", "neutral", [], F_, _WR, _wr("_write_ascii_nonbigmat"), "write: one dictionary keyed by (binary, layout)"),
+    ("C04", "break", ["C04-R7"], F_, _WR, _wr("_write_ascii_bigmat"), "write: (False, 'nonbigmat') mapped to the bigmat writer"),
+]
